@@ -799,4 +799,10 @@ def r19_12(ctx):
         ctx.ok(init.where, f"decoder slot(s) {sorted(slots)} stored only in __init__", init.fq)
 
 
-RULES = [r19_1, r19_2, r19_3, r19_4, r19_5, r19_6, r19_8, r19_9, r19_10, r19_11, r19_12, r19_13, r19_14, r19_15]
+def r19_16(ctx):
+    from .c06 import r6_5
+    from .common import borrow
+    borrow(ctx, r6_5, "R6.5", "R19.16", " [encoder side of the round trip: every attribute a style sets is written as its SGR code - the group masks of _make_ansi_codes cover every attribute bit, or decode(encode(style)) loses it]")
+
+
+RULES = [r19_1, r19_2, r19_3, r19_4, r19_5, r19_6, r19_8, r19_9, r19_10, r19_11, r19_12, r19_13, r19_14, r19_15, r19_16]
